@@ -211,33 +211,7 @@ def build():
     p12 = C12.build()  # Table.write: exactly the addressed cell is replaced by the cell made from the value
     plan.import_targets(p12, lambda c: c.qual == "document:Table.write")
     # ------------------------------------------------------------------ keys of lists that a save empties are looked up afresh
-    def keys_of_emptied_lists_not_memoised():
-        """model.py: a lookup list that is re-initialised (`self.X.init(...)`: every save empties the string list and restarts its keys)
-        hands out keys that are only valid until the next re-initialisation; a memoised method that obtains such keys
-        (`self.X.lookup_key(...)`) would return the key of an earlier save for a value the list no longer holds."""
-        import ast as _ast
-        from pyvc import extract as _ex
-        tree = _ast.parse(open(os.path.join(_ex.SRC, "model.py")).read())
-        emptied = set()
-        for n in _ast.walk(tree):
-            if isinstance(n, _ast.Call) and isinstance(n.func, _ast.Attribute) and n.func.attr == "init" and isinstance(n.func.value, _ast.Attribute) \
-                    and _ast.unparse(n.func.value.value) == "self":
-                emptied.add(n.func.value.attr)
-        if not emptied:
-            return False, "anchor lost: no lookup list is re-initialised in model.py (the string list used to be)", 0
-        bad, seen = [], 0
-        for cls_ in [c for c in _ast.walk(tree) if isinstance(c, _ast.ClassDef)]:
-            for fn in [x for x in cls_.body if isinstance(x, _ast.FunctionDef)]:
-                uses = [x for x in emptied if any(isinstance(n, _ast.Call) and _ast.unparse(n.func) == f"self.{x}.lookup_key" for n in _ast.walk(fn))]
-                if not uses:
-                    continue
-                seen += 1
-                if any("cache" in _ast.unparse(d) for d in fn.decorator_list):
-                    bad.append(f"{cls_.name}.{fn.name} is memoised but obtains keys of self.{uses[0]}, which every save empties and renumbers: after a "
-                               "second save of the same open document, text written before the first save is stored under a stale key")
-        if not seen:
-            return False, f"anchor lost: no method obtains keys of {sorted(emptied)}", 0
-        return (not bad), (bad[:3] or f"methods obtaining keys of {sorted(emptied)} are not memoised"), seen
+    from contracts.shared_ground import keys_of_emptied_lists_not_memoised
     plan.ground.append(("keys-of-lists-emptied-on-save-are-not-memoised", keys_of_emptied_lists_not_memoised))
 
     from contracts import C07
